@@ -350,6 +350,7 @@ PROVIDERS = {
     "C06": ("From SA Require Import Base.Prelude Index.Index Index.Fast View.View.\nOpen Scope N_scope.\n", _view_cases, 80),
     "C15": ("From SA Require Import Base.Prelude Index.Index Index.Truncate Span.Span.\nOpen Scope N_scope.\n", _slop_cases, 60),
     "C07": ("From SA Require Import Base.Prelude Index.Index Index.Fast View.View View.Purity.\nOpen Scope N_scope.\n", _purity_cases, 80),
+    "C08": ("From SA Require Import Base.Prelude Index.Index Index.Truncate Query.Phrase.\nOpen Scope N_scope.\n", _index_cases, 80),
     "C13": ("From SA Require Import Base.Prelude Codec.Codec.\nOpen Scope N_scope.\n", _codec_cases, 120),
 }
 
